@@ -44,23 +44,29 @@ Definition merge_contract (mrg : merge_op) : Prop :=
          (la : list A) (lb : list B),
     Permutation (mrg A B ka kb h la lb) (merge_rel ka kb h la lb).
 
-(* the contract of the spatial index (C03) for the left bounds [lb]: the answer
-   has no duplicates, names existing rows, and holds every row whose box is not
-   outside the query box *)
+(* a query box without NaN *)
+Definition finite_box (q : bbox) : Prop :=
+  match q with (Some _, Some _, Some _, Some _) => True | _ => False end.
+
+(* the contract of the spatial index (C03) for the left bounds [lb]: for every query the
+   answer has no duplicates and names existing rows; for a query without NaN it holds
+   every row whose box is not outside the query box *)
 Definition cand_contract (n : nat) (lb : list bbox) (cand : bbox -> list nat) : Prop :=
   (forall q, NoDup (cand q)) /\
   (forall q l, In l (cand q) -> l < n) /\
-  (forall q l, l < n -> box_outside q (nth l lb nanbox) = false -> In l (cand q)).
+  (forall q l, finite_box q -> l < n -> box_outside q (nth l lb nanbox) = false ->
+               In l (cand q)).
 
 (* C02: the array form restricted to positions [inds] is the scalar form, position by position *)
 Definition array_form_contract (a : fixarr) : Prop :=
   forall sh inds m, inds_ok (fa_len a) inds = true ->
     array_intersects a sh (Some inds) = Some (Value m) -> m = map (hitb a sh) inds.
 
-(* a point that intersects a shape lies in the shape's bounds row: the left row's
-   box is not outside the right row's box *)
+(* a point that intersects a shape lies in the shape's bounds row: that row has no NaN
+   and the left row's box is not outside it *)
 Definition hit_in_bbox (a : fixarr) (sh : shape) : Prop :=
   forall l, l < fa_len a -> hitb a sh l = true ->
+    finite_box (shape_bounds sh) /\
     box_outside (shape_bounds sh) (nth l (fa_bounds a) nanbox) = false.
 
 (* column naming: clashing names get the suffix of their side *)
